@@ -44,7 +44,7 @@ Mk(pc, psr, rv, rm, r6, strict, real, base) ==
    devs |-> <<Dev("null"), Dev("kbd"), Dev("disp")>>, ports |-> (65024 :> 1) @@ (65026 :> 1) @@ (65028 :> 2) @@ (65030 :> 2),
    ireg |-> (65532 :> "PSR") @@ (65534 :> "MCR"),
    flags |-> [strict |-> strict, real |-> real, dbg |-> FALSE, ignp |-> FALSE], alloca |-> <<>>,
-   srdefs |-> <<>>, base |-> base, bps |-> {}, pause |-> "Unsuccessful", devn |-> {}, drift |-> FALSE,
+   srdefs |-> <<>>, base |-> base, bps |-> {}, pause |-> "Unsuccessful", devn |-> {}, drift |-> FALSE, nrej |-> 0,
    mark |-> [reg |-> <<>>, psr |-> 0, pc |-> 0, kbd |-> <<>>, disp |-> <<>>, memw |-> <<>>, ssp |-> NoW]]
 
 VARIABLES st, prev, obsv, n
